@@ -5,6 +5,7 @@
 #include "sim/harness.h"
 #include "sim/scenario.h"
 #include "sim/monitors.h"
+#include "relay.h"
 #include <algorithm>
 
 namespace tun {
@@ -22,6 +23,8 @@ struct Run {
 	mon::TunMonitor tm;
 	mon::WireMonitor wm;
 	scn::FaultNet fn;
+	std::unique_ptr<rly::Relay> relay;   // optional relay between clients and server (ids rewritten; letter case randomised from a chosen moment)
+	int relay_case = 0;                   // 0 never, 1 from the start (negotiation sees it), 2 only after the handshake (adversarial)
 	std::vector<Offer> offers;
 	std::string render;
 	int down_frag = 0;          // negotiated downstream fragment size (from the client's N request), 0 unknown
@@ -79,8 +82,21 @@ inline void run_tunnel(Tape &t, Mode mode, Run &R)
 {
 	R.cfg = gen_config(t, mode);
 	scn::Config &c = R.cfg;
+	// a relay in the path (C01: DNS-id rewriting and case-randomising relays; C02: id rewriting only, the path stays intact)
+	bool use_relay = !c.raw_mode && !c.client_v6 && t.chance(1, mode == FAULTY ? 3 : 6);
+	if (use_relay) c.nameserver = sim::Addr::v4(192, 0, 2, 53, 53);
 	scn::Session s(c);
 	R.tm.attach(sim::W);
+	if (use_relay) {
+		R.relay.reset(new rly::Relay());
+		rly::Profile P; for (int k = 0; k < 7; k++) { static const int ORDER[] = {10, 65399, 16, 33, 15, 5, 1}; P.types.push_back(ORDER[k]); }
+		P.rewrite_ids = true;
+		R.relay_case = mode == FAULTY ? (int)t.pick({2, 2, 3}) : 0;
+		if (R.relay_case == 1) { P.q.kase = 3; if (t.chance(1, 2)) P.a.kase = 3; }
+		R.relay->p = P; R.relay->rnd = t.u32() | 1;
+		R.relay->front = c.nameserver; R.relay->back = sim::Addr::v4(192, 0, 2, 53, 3053); R.relay->server = scn::SRV4;
+		R.relay->attach();
+	}
 	s.start_server();
 	R.wm.v = &R.v; R.wm.domain = c.domain; R.wm.srv_idx = s.srv->idx; R.wm.client_maxlen = c.maxlen ? c.maxlen : 255;
 	R.fn.tape = &t; R.fn.install();
@@ -122,6 +138,8 @@ inline void run_tunnel(Tape &t, Mode mode, Run &R)
 		for (int k = 0; k < c.nclients; k++) if (s.cli[k]->state == sim::ST_EXITED) R.exited = true;
 		return;
 	}
+	if (R.relay && R.relay_case == 2) { R.relay->p.q.kase = 3; if (t.chance(1, 2)) R.relay->p.a.kase = 3; }   // the relay starts randomising case after negotiation: data may be destroyed, never fabricated
+	if (R.relay) R.classes.push_back(R.relay_case == 0 ? "relay:id-rewriting" : (R.relay_case == 1 ? "relay:case-randomising" : "relay:case-randomising-after-handshake"));
 	R.classes.push_back(std::string("type:") + refproto::qtype_name(c.qtype));
 	R.classes.push_back(c.lazy ? "lazy" : "immediate");
 	if (c.raw_mode) R.classes.push_back("rawmode");
